@@ -206,6 +206,55 @@ def run(ctx):
               f"multiplex.tree.itermatch consults {[A.unparse(g.iter) for n, _ in iters for g in n.generators]}")
     ctx.floor("R4", 4)
 
+    # ---- R5 the caches a query reads are invalidated when the contents change; both query forms read one source ----
+    na = P.func(MOD, "tree.notify_add_package")
+    g5 = cfg_of(na.node)
+
+    def regen_nodes(fn, cache):
+        return [g_ for c in A.calls(fn.node) if A.call_attr(c) == "force_regen" and isinstance(c.func.value, ast.Attribute) and c.func.value.attr == cache
+                for g_ in [cfg_of(fn.node).node_of(c)] if g_ is not None]
+
+    for cache, why in (("versions", "the new version is only visible through the version cache"),
+                       ("packages", "a package new to an already listed category is otherwise missing from every query that enumerates the category")):
+        nodes = regen_nodes(na, cache)
+        ctx.check("R5", na, bool(nodes), f"add-invalidates:{cache}:present", f"notify_add_package refreshes the {cache} cache")
+        if not nodes:
+            continue
+        path = g5.find_path([g5.entry], lambda n: n is g5.exit, avoid=lambda n: n in nodes)
+        guarded_by_pkg = False
+        if path:
+            # conditional refresh is fine when the condition looks at the package name itself
+            for n in nodes:
+                for p_ in A.parents(n.ast):
+                    if isinstance(p_, ast.If) and any(isinstance(x, ast.Attribute) and x.attr == "package" for x in ast.walk(p_.test)):
+                        guarded_by_pkg = True
+        ctx.check("R5", na, path is None or guarded_by_pkg, f"add-invalidates:{cache}",
+                  f"every way through notify_add_package refreshes the {cache} cache ({why})",
+                  f"notify_add_package can finish without refreshing the {cache} cache ({g5.fmt_path(path, na.relpath) if path else ''}): {why}",
+                  node=nodes[0].ast)
+    nr = P.func(MOD, "tree.notify_remove_package")
+    gr = cfg_of(nr.node)
+    vn = regen_nodes(nr, "versions")
+    ctx.check("R5", nr, bool(vn) and gr.find_path([gr.entry], lambda n: n is gr.exit, avoid=lambda n: n in vn) is None, "remove-invalidates:versions",
+              "every way through notify_remove_package refreshes the versions cache")
+    # unversioned form: "has at least one version" must be asked of the same source the versioned form iterates
+    vers_iter = [ge.generators[0].iter for ge in ast.walk(gc.node) if isinstance(ge, ast.GeneratorExp) and len(ge.generators) == 1
+                 and any(isinstance(x, ast.Attribute) and x.attr == "versions" for x in ast.walk(ge.generators[0].iter))]
+    vb = [n for n in A.body_walk(gc.node) if isinstance(n, ast.If) and A.unparse(n.test) == "versioned"]
+    ctx.require(vers_iter and vb, "_internal_gen_candidates: versioned arm / version iteration not found")
+    want = A.unparse(vers_iter[0])
+    unv_tests = [n for st_ in vb[0].orelse for n in ast.walk(st_) if isinstance(n, ast.If)]
+    ctx.require(unv_tests, "_internal_gen_candidates: the unversioned arm has no emptiness test")
+    t0 = unv_tests[0].test
+    inner = t0
+    if isinstance(inner, ast.Call) and isinstance(inner.func, ast.Name) and inner.func.id in ("bool", "len", "any") and inner.args:
+        inner = inner.args[0]
+    ctx.check("R5", gc, A.unparse(inner) == want, "unversioned-asks-version-list",
+              f"the unversioned form reports a package iff `{want}` is non-empty, the list the versioned form iterates",
+              f"the unversioned form reports a package when `{A.unparse(t0)}` holds, but the versioned form yields one package per element of `{want}`: "
+              f"a known package with an empty version list is reported unversioned although no versioned query returns it", node=unv_tests[0])
+    ctx.floor("R5", 5)
+
 
 MUTANTS = [
     {"name": "lift-ignores-negate", "file": "src/pkgcore/repository/prototype.py", "old": "                    for c in collect_package_restrictions(x, (\"category\",))\n                    if not c.negate\n", "new": "                    for c in collect_package_restrictions(x, (\"category\",))\n", "rule": "R2"},
